@@ -480,11 +480,22 @@ pub fn run(ctx: &mut LaneCtx) {
         SubSpec {
             name: "live-threads",
             cases: (960, 30_000),
-            rule: "generated targets (main + 1..63 threads: parked with sentinel registers, spinners with a register/stack/app-memory counter triple, sleepers, null-SP helpers, a spinner whose stack pointer holds an odd value such as all ones, exiters cued at the threads-enumerated hook; every third parked thread has a GS base of its own) dumped by the real writer - in a quarter of the cases on a thread to which the kernel refuses PTRACE_GETREGSET for the general-purpose and/or floating-point set (seccomp filter), so that PTRACE_GETREGS / PTRACE_GETFPREGS answer; oracle = set of listed ids, per-register comparison with the sentinels, counter triple within one step; non-trivial = >=2 threads and a spinner, null-SP thread or vanished thread; distinct = hash of case",
-            strategy: (crate::props::fid::case_strategy(if ctx.tier == Tier::Quick { 20 } else { 64 }, 1), proptest::option::weighted(0.3, any::<u8>()), prop_oneof![3 => Just(0u8), 1 => 1u8..4])
+            rule: "generated targets (main + 1..63 threads, a fifth of the cases with more than 20 so that a triggered size limit meets a blamed thread at list position 20 or later: parked with sentinel registers, spinners with a register/stack/app-memory counter triple, sleepers, null-SP helpers, a spinner whose stack pointer holds an odd value such as all ones, exiters cued at the threads-enumerated hook; every third parked thread has a GS base of its own) dumped by the real writer - in a quarter of the cases on a thread to which the kernel refuses PTRACE_GETREGSET for the general-purpose and/or floating-point set (seccomp filter), so that PTRACE_GETREGS / PTRACE_GETFPREGS answer; oracle = set of listed ids, per-register comparison with the sentinels, counter triple within one step; non-trivial = >=2 threads and a spinner, null-SP thread or vanished thread; distinct = hash of case",
+            strategy: (prop_oneof![4 => crate::props::fid::case_strategy(if ctx.tier == Tier::Quick { 20 } else { 64 }, 1), 1 => crate::props::fid::case_strategy(34, 21)], proptest::option::weighted(0.3, any::<u8>()), prop_oneof![3 => Just(0u8), 1 => 1u8..4])
                 .prop_map(|(mut c, odd, refuse)| {
                     c.odd_sp = odd;
                     c.refuse_regsets = refuse;
+                    if c.threads.len() > 20 {
+                        // the many-thread cases are about list positions >= 20: a limit that triggers,
+                        // and (two cases in three) a blamed thread from the upper part of the list
+                        c.limit = crate::props::fid::LimitG::Tiny;
+                        if c.threads.len() % 3 != 0 {
+                            c.blamed = crate::props::fid::BlamedG::Thread(40_000 + (c.threads.len() as u16 * 631) % 25_000);
+                        }
+                        if odd.is_none() {
+                            c.crash = None;
+                        }
+                    }
                     c
                 })
                 .boxed(),
